@@ -3,13 +3,19 @@
 # to a scratch copy of /repo, check whether the repository's suite notices it,
 # and run the quick tier of the check(s) of its property against the copy.
 # Output: <mutant> suite=<pass|FAIL> <ID>=<caught|missed|inconclusive> ...
-cd /verif
-declare -A MAP=( [revF01]="C02 C08" [revF02]="C02 C08" [revF03]="C08" [revF04]="C12" [revF05]="C09" [revF06]="C10" [revF07]="C08" [revF08]="C09" [revF09]="C03" [revF10]="C14" [revF11]="C11" [revF12]="C10" [revF13]="C17" [c07e]="C07 C02" )
+root=$(cd "$(dirname "$0")/.." && pwd)   # works from a worktree of /verif too
+cd "$root"
+export VERIF_WORK=${VERIF_WORK:-$root/.work5}
+declare -A MAP=( [revF14]="C15" [revF15]="C18" [revF16]="C16" [revF17]="C09" [revF18]="C11" [revF01]="C02 C08" [revF02]="C02 C08" [revF03]="C08" [revF04]="C12" [revF05]="C09" [revF06]="C10" [revF07]="C08" [revF08]="C09" [revF09]="C03" [revF10]="C14" [revF11]="C11" [revF12]="C10" [revF13]="C17" [c07e]="C07 C02" )
 for f in mutants/${1:-*}.diff; do
   n=$(basename "$f" .diff)
   ids=${MAP[$n]:-}
   if [ -z "$ids" ]; then p=${n:1:2}; ids="C$p"; fi
+  rm -rf "$VERIF_WORK/scratch-replays"
   out=$(tools/trymut "$f" $ids 2>&1)
+  sigs=$(python3 -c "
+import json,glob
+print(','.join(sorted({json.load(open(f)).get('sig','?') for f in glob.glob('$VERIF_WORK/scratch-replays/*.json')})))" 2>/dev/null)
   suite="pass"; echo "$out" | grep -q "suite: FAILS" && suite="FAIL"
   echo "$out" | grep -q "PATCH FAILED" && { echo "$n PATCH-FAILED"; continue; }
   line="$n suite=$suite"
@@ -18,5 +24,5 @@ for f in mutants/${1:-*}.diff; do
     case "$code" in 1) r=caught;; 0) r=missed;; *) r="inconclusive($code)";; esac
     line="$line $id=$r"
   done
-  echo "$line"
+  echo "$line clauses=$sigs"
 done
